@@ -175,8 +175,16 @@ struct SIMDVector<float,simd_abi::avx512> {
     FASTOR_INLINE SIMDVector<float,simd_abi::avx512> reverse() {
         return _mm512_reverse_ps(value);
     }
-    // FASTOR_INLINE float minimum() {return _mm512_hmin_ps(value);}
-    // FASTOR_INLINE float maximum() {return _mm512_hmax_ps(value);}
+    FASTOR_INLINE float minimum() {
+        __m256 low  = _mm512_castps512_ps256(value);
+        __m256 high = _mm256_castpd_ps(_mm512_extractf64x4_pd(_mm512_castps_pd(value),1));
+        return _mm256_hmin_ps(_mm256_min_ps(low,high));
+    }
+    FASTOR_INLINE float maximum() {
+        __m256 low  = _mm512_castps512_ps256(value);
+        __m256 high = _mm256_castpd_ps(_mm512_extractf64x4_pd(_mm512_castps_pd(value),1));
+        return _mm256_hmax_ps(_mm256_max_ps(low,high));
+    }
 
     FASTOR_INLINE float dot(const SIMDVector<float,simd_abi::avx512> &other) {
         __m512 res =  _mm512_mul_ps(value,other.value);
